@@ -8,7 +8,7 @@ import (
 
 // RawHop is one hop field of a raw SCION path.
 type RawHop struct {
-	ExpTime              uint8
+	ExpTime                 uint8
 	ConsIngress, ConsEgress uint16
 }
 
